@@ -47,7 +47,8 @@ def _setup(it):
     fc, n, dof0, dof1, ext0, regs = scenario.make_problem(it, nfields=2)  # global size 10: 8 displacement + 2 dual unknowns (no mass)
     it.call_hooks[("felupe.dof._tools", "partition")] = lambda interp, fn, args, kwargs: (dof0, dof1)
     mlt = sym("mult")
-    items = [VibItem("a", fc, n, n), VibItem("b", fc, 8, n, multiplier=mlt)]
+    # three items: no multiplier, a symbolic one, and a stiffness that is switched off (multiplier 0: its mass still counts)
+    items = [VibItem("a", fc, n, n), VibItem("b", fc, 8, n, multiplier=mlt), VibItem("c", fc, n, n, multiplier=0)]
     return fc, n, dof0, dof1, items, mlt
 
 
@@ -73,8 +74,8 @@ def run_evaluate(col):
     badK, badM = [], []
     for a, i in enumerate(dof1):
         for b, j in enumerate(dof1):
-            wantK = entry("Ka", i, j, n) + mlt * entry("Kb", i, j, 8)
-            wantM = entry("Ma", i, j, n) + entry("Mb", i, j, 8)
+            wantK = entry("Ka", i, j, n) + mlt * entry("Kb", i, j, 8) + 0 * entry("Kc", i, j, n)
+            wantM = entry("Ma", i, j, n) + entry("Mb", i, j, 8) + entry("Mc", i, j, n)
             if not is_zero(P(A[a, b]) - wantK):
                 badK.append((int(i), int(j)))
             if not is_zero(P(M[a, b]) - wantM):
